@@ -453,8 +453,11 @@ async def run_connections(st, uni, nconns, schedule, sid_map, rate_limiter=None,
                 for c, text, abstract in step[1](rec):
                     conns[c].inbox.put_nowait(("msg", text, abstract))
             elif kind == "disc":
-                conns[step[1]].gone = True
-                conns[step[1]].gate.set()
+                # a reading peer goes away gracefully: what the relay already had to say is still delivered, then ws_recv
+                # reports the disconnect.  A stalled peer that goes away makes the pending ws_send fail, as a socket would.
+                if not conns[step[1]].gate.is_set():
+                    conns[step[1]].gone = True
+                    conns[step[1]].gate.set()
                 conns[step[1]].inbox.put_nowait(("disc", None, None))
             elif kind == "stall":
                 conns[step[1]].gate.clear()
